@@ -28,7 +28,7 @@ UN = ["-", "~"]
 # ---------------------------------------------------------------- semantics
 def width(t):
     k = t[0]
-    if k in ("r", "c"):
+    if k in ("r", "c", "T"):
         return t[2]
     if k == "b":
         return 1 if t[1] in EQ else width(t[2])
@@ -56,6 +56,8 @@ def ref_eval(t, val):
     k = t[0]
     if k == "r":
         return val[t[1]] & mask(t[2])
+    if k == "T":
+        raise bv.Unknown("top")
     if k == "c":
         return t[1] & mask(t[2])
     if k == "b":
@@ -93,7 +95,7 @@ def regs_of(t, acc=None):
     k = t[0]
     if k == "r":
         acc[t[1]] = t[2]
-    elif k == "c":
+    elif k in ("c", "T"):
         pass
     elif k in ("b", "s", "n"):
         regs_of(t[2], acc); regs_of(t[3], acc)
@@ -111,7 +113,7 @@ def regs_of(t, acc=None):
 
 def children(t):
     k = t[0]
-    if k in ("r", "c"):
+    if k in ("r", "c", "T"):
         return []
     if k in ("b", "s", "n"):
         return [t[2], t[3]]
@@ -129,7 +131,7 @@ def children(t):
 def nops(t):
     if t[0] == "m":
         return 1
-    return (0 if t[0] in ("r", "c") else 1) + sum(nops(c) for c in children(t))
+    return (0 if t[0] in ("r", "c", "T") else 1) + sum(nops(c) for c in children(t))
 
 
 def proper_subtrees(t):
@@ -137,7 +139,7 @@ def proper_subtrees(t):
     if t[0] == "m":
         return out
     for c in children(t):
-        if c[0] not in ("r", "c"):
+        if c[0] not in ("r", "c", "T"):
             out.append(c)
         out.extend(proper_subtrees(c))
     return out
@@ -152,6 +154,8 @@ def build(t):
         return E.reg(t[1], t[2])
     if k == "c":
         return E.cst(t[1], t[2])
+    if k == "T":
+        return E.top(t[2])
     if k == "b":
         l, r = build(t[2]), build(t[3])
         s = t[1]
@@ -203,7 +207,7 @@ def build_raw(t):
     explores the rewrite paths that start from an unsimplified node"""
     from amoco.cas import expressions as E
     k = t[0]
-    if k in ("r", "c"):
+    if k in ("r", "c", "T"):
         return build(t)
     if k == "b":
         return E.op(t[1], build_raw(t[2]), build_raw(t[3]))
@@ -216,8 +220,8 @@ def build_raw(t):
         return E.uop(t[1], build_raw(t[2]))
     if k == "x":
         x = build_raw(t[1])
-        if type(x).__name__ in ("cst", "comp", "mem"):
-            return x[t[2]:t[3]]
+        if type(x).__name__ in ("cst", "comp", "mem", "top"):
+            return x[t[2]:t[3]]     # (a slc node directly over these is never created by amoco itself)
         return E.slc(x, t[2], t[3] - t[2])
     if k == "k":
         return E.composer([build_raw(p) for p in t[1]])
@@ -275,6 +279,8 @@ def cclass(v, w):
 
 def shape(t):
     k = t[0]
+    if k == "T":
+        return "T"
     if k == "r":
         return "r"
     if k == "c":
@@ -318,8 +324,9 @@ def const_menu(w, full):
 
 class Enum(object):
     """trees by exact operator count; W = base width; options select operator families"""
-    def __init__(self, W, full_consts_n0=True, ops=None, widths=None, two_regs=True):
+    def __init__(self, W, full_consts_n0=True, ops=None, widths=None, two_regs=True, top_leaf=False):
         self.W = W
+        self.top_leaf = top_leaf
         self.ops = ops or set(ARITH + SHIFT + ROT + EQ + ORD + ["**"] + SDIV + UN + ["x", "k", "t", "z", "g"])
         self.memo = {}
         self.widths = widths or sorted(set([1, W, W + 1, 2 * W] + list(range(1, W))))
@@ -335,6 +342,8 @@ class Enum(object):
             L.append(["r", "a%d" % w, w])
         for v in const_menu(w, full):
             L.append(["c", v, w])
+        if self.top_leaf:
+            L.append(["T", None, w])
         return L
 
     def trees(self, n, w, full=True):
